@@ -663,6 +663,21 @@ pub fn generate(seed: u64, scale: usize, which: &str) -> Cases {
             plan.push(Ev::Lookup(5, false));
             o.push("twenty-servers-dead-addresses-first", run_case(&mut rr, plan));
         }
+        // a long bootstrap list (a saved routing table given back as bootstrap nodes): 24 addresses nobody answers at,
+        // then the one live server; a server and a client given that list both get in, and the server is learned
+        {
+            let mut rr = r.fork();
+            let mut plan = vec![Ev::Join(true, vec![]), Ev::Join(true, vec![0])];
+            for _ in 0..24 {
+                plan.push(Ev::Dead);
+            }
+            let mut boots: Vec<usize> = (2..26).collect();
+            boots.push(1);
+            plan.push(Ev::Join(true, boots.clone()));
+            plan.push(Ev::Join(false, boots));
+            plan.push(Ev::Lookup(0, true));
+            o.push("long-bootstrap-list-live-server-last", run_case(&mut rr, plan));
+        }
         // networks beyond the reach of the whole-lookup model: connectivity verdict only
         for i in 0..(2 * scale) {
             let mut rr = r.fork();
